@@ -466,6 +466,7 @@ type obs struct {
 	fedkeys  int // ConvertVersionedSchemas: 1 accepted, 2 refused with 'Invalid federation key', 3 refused with '... is not federated', 4 refused (key configurations: whatever the text), 0 anything else
 	queries  []qobs
 	skip     bool
+	per      map[string]mergeOut // per service: MergeIntrospectionSchemas of that service alone
 }
 type qobs struct {
 	q   []Sel
@@ -516,6 +517,9 @@ func main() {
 		}
 	}
 
+	repaired, reading := probeRepaired()
+	run.Hist("mergeSchemaSlice-reading:" + reading)
+
 	var all []*obs
 	for idx, c := range cases {
 		run.LogCase(idx, c)
@@ -540,6 +544,23 @@ func main() {
 		ob.merged = runMerge(in)
 		if strings.HasPrefix(ob.merged.err, "panic:") {
 			failCapped(run, idx, "merge-panic", ob.merged.err, c)
+		}
+		ob.per = map[string]mergeOut{}
+		maxFold := 0
+		{
+			bySvc := map[string][]*version{}
+			for _, v := range vs {
+				bySvc[v.svc] = append(bySvc[v.svc], v)
+			}
+			for s, l := range bySvc {
+				ob.per[s] = runMerge(mkInput(l, nil))
+				if len(l) > maxFold {
+					maxFold = len(l)
+				}
+			}
+			if len(bySvc) > maxFold {
+				maxFold = len(bySvc)
+			}
 		}
 		wf := allWF(vs)
 		closed := allClosed(vs)
@@ -596,16 +617,29 @@ func main() {
 				}
 				return m
 			}
+			differs := false
 			for try := 0; try < 3; try++ {
 				svcNames, verNames = perm(ss, "svc"), perm(vv, "ver")
 				m2 := runMerge(mkInput(vs, func(s, v string) (string, string) { return svcNames[s], verNames[v] }))
 				if m2.ok != ob.merged.ok {
 					sig := "merge-error-depends-on-naming"
 					failCapped(run, idx, sig, fmt.Sprintf("original: ok=%v %s; renamed %v %v: ok=%v %s", ob.merged.ok, short(ob.merged.err, 200), svcNames, verNames, m2.ok, short(m2.err, 200)), c)
+					differs = true
 					break
 				} else if m2.ok && m2.canon != ob.merged.canon {
 					failCapped(run, idx, "merge-result-depends-on-naming", fmt.Sprintf("renamed %v %v: %s vs %s", svcNames, verNames, short(ob.merged.canon, 400), short(m2.canon, 400)), c)
 					break
+				}
+			}
+			// folds of three or more schemas (versions of one service, or services): does the outcome survive reordering?
+			if maxFold >= 3 {
+				switch {
+				case differs:
+					run.Hist("fold-of->=3-schemas:some-order-fails-another-succeeds")
+				case ob.merged.ok:
+					run.Hist("fold-of->=3-schemas:every-tried-order-succeeds(equal-results)")
+				default:
+					run.Hist("fold-of->=3-schemas:every-tried-order-fails")
 				}
 			}
 		}
@@ -617,8 +651,8 @@ func main() {
 			for _, v := range vs {
 				bySvc[v.svc] = append(bySvc[v.svc], v)
 			}
-			for s, l := range bySvc {
-				perSvc[s] = runMerge(mkInput(l, nil))
+			for s := range bySvc {
+				perSvc[s] = ob.per[s]
 			}
 			// ---- oracle (d): a service's schema offers only what every version of it supports
 			for s, l := range bySvc {
@@ -929,7 +963,24 @@ func main() {
 			}
 			qs = append(qs, "("+selsCoq(q.q)+", "+vh.CoqList(rs)+")")
 		}
-		terms = append(terms, fmt.Sprintf("(%d, mk_case %s %s %s %s %d)", ob.idx, vh.CoqList(ss), merged, vh.CoqList(fsv), vh.CoqList(qs), ob.fedkeys))
+		var pers []string
+		var pnames []string
+		for s := range ob.per {
+			pnames = append(pnames, s)
+		}
+		sort.Strings(pnames)
+		for _, s := range pnames {
+			p := ob.per[s]
+			if strings.HasPrefix(p.err, "panic:") {
+				continue
+			}
+			pj := "None"
+			if p.ok {
+				pj = "(Some " + vh.CoqJSON(p.s.canon()) + ")"
+			}
+			pers = append(pers, "("+vh.CoqString(s)+", "+pj+")")
+		}
+		terms = append(terms, fmt.Sprintf("(%d, mk_case %s %s %s %s %d %s %s)", ob.idx, vh.CoqList(ss), merged, vh.CoqList(fsv), vh.CoqList(qs), ob.fedkeys, vh.CoqBool(repaired), vh.CoqList(pers)))
 		if len(terms) >= shard {
 			flush()
 		}
